@@ -74,6 +74,8 @@ func buildOverlay(spec *Spec, native bool, workDir string) (map[string]string, e
 		flavour = "zzverif_native"
 	}
 	zfiles, _ := filepath.Glob(filepath.Join(verifDir, "harness", flavour, "*.go"))
+	cfiles, _ := filepath.Glob(filepath.Join(verifDir, "harness", "zzverif_common", "*.go"))
+	zfiles = append(zfiles, cfiles...)
 	for _, f := range zfiles {
 		ov[filepath.Join(repoDir, "zzverif", filepath.Base(f))] = f
 	}
@@ -205,6 +207,7 @@ func (it *Interp) resetPath(prefix []int) {
 	it.inputMeta = map[string]string{}
 	it.recoverable = nil
 	it.wrapped = map[*Object]Value{}
+	it.gzipUnder = map[*Object]Value{}
 	it.pathNotes = nil
 	it.stack = nil
 	it.model = nil
@@ -977,6 +980,9 @@ func main() {
 }
 
 func doReplayCmd(path string) int {
+	if abs, err := filepath.Abs(path); err == nil {
+		path = abs
+	}
 	b, err := os.ReadFile(path)
 	if err != nil {
 		fmt.Println("cannot read replay file:", err)
